@@ -79,8 +79,9 @@ ASSUMPTIONS = [
 ]
 TECHNIQUE = "Lean 4 proof about an executable control automaton + lock-step correspondence through injected spies"
 LEVEL_TEXT = ("theorems unbounded over configurations, rankers, stop tests, feedback and histories; correspondence "
-              "bounded: batch 1..8, rules basic / no_improvement / 1..7, histories up to 10 (quick) / 30 "
-              "(thorough) tells")
+              "bounded: batch 1..8, rules basic / no_improvement / 1..7 (also 11, 50, 127 as NumPy integers), histories up "
+              "to 10 (quick) / 30 (thorough) tells, and up to ~290 (quick) / ~32 800 (thorough) tells for integer rules "
+              "given as narrow NumPy integers")
 
 RULES = ["basic", "no_improvement", 1, 2, 3, 4, 5, 6, 7]
 # an integer rule may be given as any numbers.Integral: the same N as a fixed-width NumPy integer
@@ -93,11 +94,12 @@ X0 = -1.0
 MEASURE_DIM = 2
 NCOEF = MEASURE_DIM + 1
 
-STATS = {}
+_CTX = [None]  # the running context: counts go through it so that they also travel back from forked workers
 
 
 def stat(key, k=1):
-    STATS[key] = STATS.get(key, 0) + k
+    if _CTX[0] is not None:
+        _CTX[0].count(key, k)
 
 
 # --------------------------------------------------------------------------
@@ -396,13 +398,14 @@ def make_gen_histories(kind, max_iters):
     return gen
 
 
-def make_gen_sweep(max_iters):
+def make_gen_sweep(max_iters, systematic):
     combos = [(k, s, r, b) for k in ("es", "gae") for s in SELS for r in RULES for b in range(1, 9)]
     counter = [0]
 
     def gen(rng):
-        # walk the whole lattice in order; the rng supplies the feedback
-        kind, sel, rule, bs = combos[counter[0] % len(combos)]
+        # quick tier (one process): walk the whole lattice in order, the rng supplies the feedback;
+        # thorough tier (forked workers, 12 cases per lattice point): the rng also picks the point
+        kind, sel, rule, bs = combos[counter[0] % len(combos) if systematic else rng.randrange(len(combos))]
         counter[0] += 1
         n = 2 * rule + 1 + rng.randint(0, 2) if isinstance(rule, int) else rng.randint(3, 8)
         return gen_history(rng, kind, sel, rule, bs, min(n, max_iters), p_stop=0.05)
@@ -433,11 +436,12 @@ def make_gen_npint(thorough):
     counter = [0]
 
     def gen(rng):
-        i = counter[0]
+        # quick tier: one process, types and emitters in rotation; thorough tier: forked workers, the rng picks
+        i = rng.randrange(10 ** 6) if thorough else counter[0]
         counter[0] += 1
         tname = NP_INTS[i % len(NP_INTS)]
         kind = ("es", "gae")[(i // len(NP_INTS)) % 2]
-        very_long = thorough and tname == "int16" and i % (8 * len(NP_INTS)) == NP_INTS.index("int16")
+        very_long = thorough and tname == "int16" and rng.random() < 0.06
         bs = 1 if very_long else rng.randint(1, 4)
         rule = rng.choice([1, 2, 3, 4, 5, 6, 7, 7, 11, 50, 127])
         case = gen_history(rng, kind, rng.choice(SELS), rule, bs, rng.randint(2, 5), p_stop=0.1, churn=0.2)
@@ -842,14 +846,14 @@ def run_case(case):
 
 
 def run(ctx):
-    STATS.clear()
+    _CTX[0] = ctx
     mi = 10 if ctx.quick else 30
     tb = (lambda s: s) if ctx.quick else (lambda s: s * 12)
     ctx.explore("es-histories", make_gen_histories("es", mi), run_case, ctx.n(220, 5000),
                 nontrivial=nontrivial, time_budget=tb(6))
     ctx.explore("gae-histories", make_gen_histories("gae", mi), run_case, ctx.n(220, 5000),
                 nontrivial=nontrivial, time_budget=tb(6))
-    ctx.explore("rule-sweep", make_gen_sweep(17 if ctx.quick else 30), run_case, ctx.n(288, 288 * 12),
+    ctx.explore("rule-sweep", make_gen_sweep(17 if ctx.quick else 30, systematic=ctx.quick), run_case, ctx.n(288, 288 * 12),
                 nontrivial=nontrivial, time_budget=tb(8))
     ctx.explore("feedback-blocks", make_gen_blocks(mi), run_case, ctx.n(160, 4000),
                 nontrivial=nontrivial, time_budget=tb(5))
@@ -859,9 +863,7 @@ def run(ctx):
                 nontrivial=nontrivial, time_budget=tb(8))
     ctx.explore("rejections", gen_rejections, run_case, ctx.n(80, 1500),
                 nontrivial=nontrivial_rej, time_budget=tb(3))
-    for k, v in sorted(STATS.items()):
-        ctx.count(k, v)
-    ctx.extra["tells_compared"] = STATS.get("tells", 0)
+    ctx.extra["tells_compared"] = ctx.dist.get("tells", 0)
     ctx.extra["technique"] = TECHNIQUE
     ctx.extra["level_text"] = LEVEL_TEXT
 
